@@ -123,6 +123,9 @@ type Exec struct {
 	assertsHit    map[string]int
 	reached       map[string]int
 	assumes       int
+	model         map[string]uint64
+	evalr         *sym.Evaluator
+	known         map[int32]bool
 
 	// cumulative
 	funcs      map[string]string
@@ -302,6 +305,73 @@ func (ex *Exec) seedSkipped(pkg *ssa.Package) {
 
 func (ex *Exec) assertPC(t *sym.Term) {
 	ex.solver.Assert(t)
+	ex.learn(t, true)
+	if ex.model != nil {
+		if v, ok := ex.evalr.Eval(t); !ok || v != 1 {
+			ex.model, ex.evalr = nil, nil
+		}
+	}
+}
+
+// learn records the truth value of a decided condition (by term identity) so
+// that the same condition met again is decided without a solver query.
+func (ex *Exec) learn(t *sym.Term, val bool) {
+	for t.Op == sym.OBNot {
+		t, val = t.Args[0], !val
+	}
+	if t.IsConst() {
+		return
+	}
+	if t.Op == sym.OBAnd && val {
+		ex.learn(t.Args[0], true)
+		ex.learn(t.Args[1], true)
+	}
+	if t.Op == sym.OBOr && !val {
+		ex.learn(t.Args[0], false)
+		ex.learn(t.Args[1], false)
+	}
+	if id := t.ID(); id != 0 {
+		ex.known[id] = val
+	}
+}
+
+func (ex *Exec) knownVal(t *sym.Term) (bool, bool) {
+	neg := false
+	for t.Op == sym.OBNot {
+		t, neg = t.Args[0], !neg
+	}
+	if id := t.ID(); id != 0 {
+		if v, ok := ex.known[id]; ok {
+			return v != neg, true
+		}
+	}
+	return false, false
+}
+
+func (ex *Exec) setModel(m map[*sym.Term]uint64) {
+	if m == nil {
+		ex.model, ex.evalr = nil, nil
+		return
+	}
+	ex.model = make(map[string]uint64, len(m))
+	for t, v := range m {
+		ex.model[t.Name] = v
+	}
+	ex.evalr = sym.NewEvaluator(ex.model)
+}
+
+// modelVal evaluates t under the cached model of the path condition.
+func (ex *Exec) modelVal(t *sym.Term) (uint64, bool) {
+	if ex.model == nil {
+		return 0, false
+	}
+	// variables created after the model was read are unconstrained: extend with 0
+	for _, v := range ex.ctx.Vars() {
+		if _, ok := ex.model[v.Name]; !ok {
+			ex.model[v.Name] = 0
+		}
+	}
+	return ex.evalr.Eval(t)
 }
 
 func (ex *Exec) noteSite(in ssa.Instruction, fr *frame) {
@@ -353,14 +423,58 @@ func (ex *Exec) branch(cond *sym.Term, in ssa.Instruction, fr *frame) bool {
 		}
 		return take
 	}
+	if kv, ok := ex.knownVal(cond); ok {
+		n := uint64(0)
+		if kv {
+			n = 1
+		}
+		ex.trace = append(ex.trace, Decision{Kind: DBranch, N: n, Forced: true})
+		ex.pos_++
+		return kv
+	}
 	ex.checkDeadline()
-	r1, _ := ex.solver.Check(cond, nil)
+	vars := ex.ctx.Vars()
+	if mv, ok := ex.modelVal(cond); ok {
+		// the cached model witnesses the mv side; only the other side needs a query
+		take := mv == 1
+		other := cond
+		if take {
+			other = c.BNot(cond)
+		}
+		r, _ := ex.solver.Check(other, nil)
+		if r == sym.Unknown {
+			ex.inconclusive("solver unknown on branch feasibility: " + ex.solver.LastErr)
+		}
+		n := uint64(0)
+		if take {
+			n = 1
+		}
+		if r == sym.Unsat {
+			ex.trace = append(ex.trace, Decision{Kind: DBranch, N: n, Forced: true})
+			ex.pos_++
+			ex.learn(cond, take)
+			return take
+		}
+		ex.noteSite(in, fr)
+		alt := append(append([]Decision(nil), ex.trace...), Decision{Kind: DBranch, N: 1 - n})
+		ex.pending = append(ex.pending, alt)
+		ex.trace = append(ex.trace, Decision{Kind: DBranch, N: n})
+		ex.pos_++
+		if take {
+			ex.assertPC(cond)
+		} else {
+			ex.assertPC(c.BNot(cond))
+		}
+		return take
+	}
+	r1, m1 := ex.solver.Check(cond, vars)
 	if r1 == sym.Unknown {
 		ex.inconclusive("solver unknown on branch feasibility: " + ex.solver.LastErr)
 	}
 	if r1 == sym.Unsat {
 		ex.trace = append(ex.trace, Decision{Kind: DBranch, N: 0, Forced: true})
 		ex.pos_++
+		ex.learn(cond, false)
 		return false
 	}
 	r2, _ := ex.solver.Check(c.BNot(cond), nil)
@@ -370,6 +484,8 @@ func (ex *Exec) branch(cond *sym.Term, in ssa.Instruction, fr *frame) bool {
 	if r2 == sym.Unsat {
 		ex.trace = append(ex.trace, Decision{Kind: DBranch, N: 1, Forced: true})
 		ex.pos_++
+		ex.learn(cond, true)
+		ex.setModel(m1)
 		return true
 	}
 	ex.noteSite(in, fr)
@@ -377,6 +493,7 @@ func (ex *Exec) branch(cond *sym.Term, in ssa.Instruction, fr *frame) bool {
 	ex.pending = append(ex.pending, alt)
 	ex.trace = append(ex.trace, Decision{Kind: DBranch, N: 1})
 	ex.pos_++
+	ex.setModel(m1)
 	ex.assertPC(cond)
 	return true
 }
@@ -411,14 +528,24 @@ func (ex *Exec) concretize(t *sym.Term, in ssa.Instruction, fr *frame) uint64 {
 	for _, v := range excl {
 		ex.assertPC(c.BNot(c.Cmp(sym.OEq, t, sym.Const(t.W, v))))
 	}
-	r, m := ex.solver.Check(nil, []*sym.Term{t})
-	if r == sym.Unknown {
-		ex.inconclusive("solver unknown on concretisation: " + ex.solver.LastErr)
+	var v uint64
+	if mv, ok := ex.modelVal(t); ok && len(excl) == 0 {
+		v = mv
+	} else {
+		r, m := ex.solver.Check(nil, append([]*sym.Term{t}, ex.ctx.Vars()...))
+		if r == sym.Unknown {
+			ex.inconclusive("solver unknown on concretisation: " + ex.solver.LastErr)
+		}
+		if r == sym.Unsat {
+			panic(pathEnd{endInfeasible, "no further value"})
+		}
+		v = m[t]
+		delete(m, t)
+		if t.Op == sym.OVar {
+			m[t] = v
+		}
+		ex.setModel(m)
 	}
-	if r == sym.Unsat {
-		panic(pathEnd{endInfeasible, "no further value"})
-	}
-	v := m[t]
 	if len(excl)+1 > ex.cfg.ConcCap {
 		where := "?"
 		if fr != nil && in != nil {
@@ -675,6 +802,8 @@ func (ex *Exec) resetPath() {
 	ex.assertsHit = map[string]int{}
 	ex.reached = map[string]int{}
 	ex.assumes = 0
+	ex.model, ex.evalr = nil, nil
+	ex.known = map[int32]bool{}
 }
 
 // RunPath executes job along prefix and returns the outcome plus the
